@@ -293,13 +293,14 @@ class LGen:
 # to streaming and outside the property ("...yields the first n results of a sufficiently long
 # bounded query" presupposes that every operand keeps answering).  The generator therefore
 # keeps every proper sub-expression TERMinating or PRODuctive on the open window:
-#   stored: TERM   recurring: PROD
+#   stored: TERM   recurring: PROD   (TERMU: TERM with a last event unbounded to the right, i.e.
+#   the complement of a finite stream; against infinite operands it behaves like a PROD stream)
 #   union: all TERM -> TERM, else PROD        intersection: some TERM -> TERM
 #   difference/complement/filter/buffer: TERM if the source is
 #   all-PROD intersection, and difference/complement/filter of a PROD source: PROD iff the
 #   sub-expression still has results in a 90-day window lying after every stored event and
 #   filter constant (there the results repeat with the lcm of the periods, 42 days)
-TERM, PROD, BAD = "term", "prod", "bad"
+TERM, TERMU, PROD, BAD = "term", "termu", "prod", "bad"
 
 
 def regime_nonempty(t, a):
@@ -312,6 +313,8 @@ def regime_nonempty(t, a):
 
 
 def classify(t, a):
+    """TERM: ends by itself; TERMU: ends, possibly with an event that is unbounded to the right
+    (the complement of a finite stream over an open window); PROD: keeps delivering; BAD."""
     op = t["op"]
     if op == "per":
         return PROD
@@ -323,16 +326,26 @@ def classify(t, a):
     kids = [classify(t[k], a) for k in ("l", "r", "s") if k in t]
     if BAD in kids:
         return BAD
+    fin = (TERM, TERMU)
     if op == "or":
-        return TERM if all(k == TERM for k in kids) else PROD
+        if all(k in fin for k in kids):
+            return TERMU if TERMU in kids else TERM
+        return PROD
     if op == "and":
         if TERM in kids:
             return TERM
+        if all(k == TERMU for k in kids):
+            return TERMU
     elif op == "sub":
         if kids[0] == TERM:
             return TERM
-    elif kids[0] == TERM:          # inv, filt, buf
-        return TERM
+        if kids[0] == TERMU and kids[1] in fin:
+            return TERMU
+    elif op == "inv":
+        if kids[0] in fin:
+            return TERMU if kids[0] == TERM else TERM
+    elif kids[0] in fin:            # filt, buf
+        return kids[0]
     if op == "buf":
         return kids[0]
     return PROD if regime_nonempty(t, a) else BAD
@@ -537,7 +550,7 @@ class LazyFamily(Family):
     corr = "corr_pull"
     oracle = "oracle_C14"
     dom_funcs: dict = {}
-    n_quick = 3000
+    n_quick = 2000
     n_thorough = 30000
     shard = 60
     rule = ("expression trees (depth <= 3) over 1-3 recurring daily/weekly UTC leaves and stored timelines, "
